@@ -66,8 +66,35 @@ func newLexer(xpath string) *lexer.Lexer {
 	disambiguateOperatorNames(lex)
 	rejectForeignWhitespace(lex)
 	disambiguateFunctionNames(lex)
+	dropTrailingDots(lex)
 
 	return lex
+}
+
+// XPath's Number is Digits ('.' Digits?)? | '.' Digits, but the grammar has no
+// production for "Digits '.'", so 1. was a syntax error.  A '.' written
+// directly after digits and not directly followed by more digits belongs to
+// that number - unless the digits are themselves the fraction of .5 or 1.5 -
+// and adds nothing to its value: it is dropped from the token list.
+func dropTrailingDots(lex *lexer.Lexer) {
+	toks := lex.Tokens
+	kept := make([]*token.Token, 0, len(toks))
+
+	for i, t := range toks {
+		if t.Type().ID() == "." && i > 0 && toks[i-1].Type().ID() == "digits" && toks[i-1].Rext() == t.Lext() {
+			// the digits must be the integer part: in .5. and 1.5. the last '.' is a step
+			fraction := i > 1 && toks[i-2].Type().ID() == "." && toks[i-2].Rext() == toks[i-1].Lext()
+			followed := i+1 < len(toks) && toks[i+1].Type().ID() == "digits" && toks[i+1].Lext() == t.Rext()
+
+			if !fraction && !followed {
+				continue
+			}
+		}
+
+		kept = append(kept, t)
+	}
+
+	lex.Tokens = kept
 }
 
 func retagAsName(lex *lexer.Lexer, i int) {
